@@ -23,6 +23,7 @@ open Pogreb
 abbrev SpecMap := AList Bytes Bytes
 
 structure D where
+  metaStale : Bool := false
   caseName : String := ""
   lineNo   : Nat := 0
   st       : MState := default
@@ -360,7 +361,7 @@ def garbageOf (st : MState) (s : MSeg) : Nat × Nat :=
 segments Compact picks must be the garbage actually present (C15: space is reclaimed). -/
 def checkSegMeta (d : D) (toks : List String) : IO D := do
   let mut d := d
-  if d.comp.isSome then return d
+  if d.comp.isSome || d.metaStale then return d
   for t in toks.drop 1 do
     match (t.splitOn ":").filterMap String.toNat? with
     | [id, db, dk, pr, dr] =>
@@ -508,7 +509,7 @@ def step (d : D) (line : String) : IO D := do
   | [] => pure d
   | "case" :: name :: _ =>
     pure { d with caseName := name, cases := d.cases + 1, spec := AList.empty, specPrev := AList.empty,
-                  syncSpec := AList.empty, since := [], comp := none, isOpen := false, noLayout := false, ambiguous := false }
+                  syncSpec := AList.empty, since := [], comp := none, isOpen := false, noLayout := false, ambiguous := false, metaStale := false }
   | "cfg" :: rest =>
     let ms := (fieldNat rest "maxseg").getD 0
     pure { d with maxSeg := ms, st := { (default : MState) with cfg := ⟨ms⟩ } }
@@ -683,7 +684,8 @@ def step (d : D) (line : String) : IO D := do
         | "fresh" => MState.init d.maxSeg seed
         | "clean" => { d.st.reopenClean with seed := seed }
         | _ => d.st.reopenRecover seed
-      let d := if kind == "recover" then { d with recoveries := d.recoveries + 1 } else d
+      let d := if kind == "recover" then { d with recoveries := d.recoveries + 1, metaStale := false } else d
+      let d := if kind == "fresh" then { d with metaStale := false } else d
       let d := match kind with
         | "fresh" => { d with fidx := FIndex.empty, fidxValid := true }
         | "clean" => d
@@ -766,6 +768,10 @@ def step (d : D) (line : String) : IO D := do
       d ← fail d "SPEC" s!"compact returned {res}"
     let _ := n
     pure d
+  | "caborted" :: _ =>
+    -- Close won the race with this compaction: it stops where it was (whatever it returns). The records it
+    -- had copied are garbage in the source now without the source's statistics knowing (until a recovery)
+    pure { d with comp := none, specPrev := d.spec, metaStale := true }
   | "segs" :: _ => checkSegs d toks
   | "segmeta" :: _ => checkSegMeta d toks
   | "dir" :: _ => checkDir d toks
